@@ -154,7 +154,7 @@ def evaluate(states, report, tier):
                     problems.append(("re-export", "%s, model says %s" % (reexports, [want_use])))
         if compilable(s):
             if res.errors:
-                problems.append(("compile:" + (res.errors[0].get("code") or "") + ":" + res.errors[0]["message"][:80],
+                problems.append((res.compile_sig(s["key"]),
                                  "\n".join(res.brief_errors()[:5])))
             elif res.crashed or "__panic" in res.out:
                 problems.append(("client-crash", str(res.crashed or res.out.get("__panic"))))
